@@ -146,19 +146,19 @@ def generate(ctx, acc):
             for tcxx, tn, nb in TYPES:
                 n = regb // nb
                 if acc.get((acxx, tcxx, "swizzle_ct")):
-                    for m in swizzle_masks(n, rng, ctx.q(3, 60), not ctx.quick)[: ctx.q(30, 100000)]:
+                    for m in swizzle_masks(n, rng, ctx.q(3, 60), not ctx.quick)[: ctx.q(64, 100000)]:
                         out.append('PERM_SWZ(%s, "%s", %s)' % (tcxx, name("swizzle_ct", m), ", ".join(map(str, m))))
                 if acc.get((acxx, tcxx, "shuffle")):
-                    for m in shuffle_masks(n, rng, ctx.q(3, 60), not ctx.quick)[: ctx.q(48, 100000)]:
+                    for m in shuffle_masks(n, rng, ctx.q(3, 60), not ctx.quick)[: ctx.q(96, 100000)]:
                         out.append('PERM_SHF(%s, "%s", %s)' % (tcxx, name("shuffle", m), ", ".join(map(str, m))))
-                if acc.get((acxx, tcxx, "slide")):
-                    for k in counts(0, regb, {nb, 2 * nb, 3, 8, 15, 16, 17, 31, 32, 33, regb // 2, regb - nb, regb - 1}, ctx.quick, rng):
-                        out.append('PERM_N(%s, "%s", slide_left, %d)' % (tcxx, name("slide_left", [k]), k))
-                        out.append('PERM_N(%s, "%s", slide_right, %d)' % (tcxx, name("slide_right", [k]), k))
-                if acc.get((acxx, tcxx, "rotate")):
-                    for k in counts(0, n - 1, {1, 2, n // 2, n // 2 + 1, n - 2}, ctx.quick, rng):
-                        out.append('PERM_N(%s, "%s", rotate_left, %d)' % (tcxx, name("rotate_left", [k]), k))
-                        out.append('PERM_N(%s, "%s", rotate_right, %d)' % (tcxx, name("rotate_right", [k]), k))
+                for fn in ("slide_left", "slide_right"):
+                    if acc.get((acxx, tcxx, fn)):
+                        for k in counts(0, regb, {nb, 2 * nb, 3, 8, 15, 16, 17, 31, 32, 33, regb // 2, regb - nb, regb - 1}, ctx.quick, rng):
+                            out.append('PERM_N(%s, "%s", %s, %d)' % (tcxx, name(fn, [k]), fn, k))
+                for fn in ("rotate_left", "rotate_right"):
+                    if acc.get((acxx, tcxx, fn)):
+                        for k in counts(0, n - 1, {1, 2, n // 2, n // 2 + 1, n - 2}, ctx.quick, rng):
+                            out.append('PERM_N(%s, "%s", %s, %d)' % (tcxx, name(fn, [k]), fn, k))
                 if acc.get((acxx, tcxx, "insert")):
                     for k in counts(0, n - 1, {1, n // 2}, ctx.quick, rng):
                         out.append('PERM_INS(%s, "%s", %d)' % (tcxx, name("insert", [k]), k))
